@@ -2,6 +2,7 @@ package props
 
 import (
 	"fmt"
+	"github.com/orda-io/orda/server/schema"
 	"sort"
 	"sync"
 	"time"
@@ -18,10 +19,10 @@ import (
 
 func init() {
 	core.Register(&core.Prop{
-		ID:      "C11",
+		ID:       "C11",
 		MaxBatch: 300,
-		Level:   "exploration",
-		Workers: 16,
+		Level:    "exploration",
+		Workers:  16,
 		Rule: "seeded push histories of 2-3 clients on each of the four types over the real service; the background snapshot update of a chosen push is held at one of its database commands (find -_-Snapshots, find -_-Operations, insert -_-Snapshots, update <user collection>) while later pushes commit and start their own updates, or all updates run freely back to back with random delays, or the whole background goroutine of one push is held back and starts only after the update of a later push has completed (out-of-order updates); monitors over the store and the command log: every -_-Snapshots document (duid, v) restored into a fresh datatype equals the replay of stored operations 1..v; every write to the user collection carries _orda_ver_ = v and (after the BSON round trip the server performs) the JSON view of replay(1..v); per key the written versions never decrease (also when the document itself has a user key named _orda_ver_); snapshot.Manager.GetLatestDatatype() equals the full replay for every position of the latest snapshot (newer snapshot documents are removed step by step); " +
 			"non-trivial = at least one snapshot update overlapped a later committed push (its held command was released after a later push had committed) or >= 3 updates ran back to back; distinct = hash of the step script",
 		Assumptions: []string{
@@ -462,4 +463,48 @@ func runC11(c *core.Case) *core.Result {
 		c.NonTrivial()
 	}
 	return c.Held()
+}
+
+// userDocCurrent: the document kept under key in the user collection records version `end` and
+// is the JSON view of the replay of operations 1..end ("" = yes).
+func userDocCurrent(w *svcWorld, typ, col, key string, dd *schema.DatatypeDoc) (string, string) {
+	for _, d := range w.b.DB.Coll(bed.DBName + "." + col) {
+		if id, _ := d.Map()["_id"].(string); id != key {
+			continue
+		}
+		ver := fakemongo.Num(d.Map()["_orda_ver_"])
+		if uint64(ver) != dd.Sseq.End {
+			return "user-doc-stale", fmt.Sprintf("the user document of key %q records version %d, the log ends at %d and no snapshot update is in progress", key, ver, dd.Sseq.End)
+		}
+		var body bson.D
+		for _, e := range d {
+			if e.Key != "_orda_ver_" && e.Key != "_id" {
+				body = append(body, e)
+			}
+		}
+		tj, _, err := replayJSON(w, typ, dd.DUID, uint64(ver))
+		if err != nil {
+			return "replay-error", err.Error()
+		}
+		if m, ok := tj.(map[string]interface{}); ok {
+			if _, has := m["_orda_ver_"]; has {
+				cp := map[string]interface{}{}
+				for k, v := range m {
+					if k != "_orda_ver_" {
+						cp[k] = v
+					}
+				}
+				tj = cp
+			}
+		}
+		want, err := viaBSON(tj)
+		if err != nil {
+			return "harness-bson", err.Error()
+		}
+		if got := crdt.Canon(plainBSON(body)); got != want {
+			return "user-doc-differs-from-replay", fmt.Sprintf("the user document with version %d is %s, the JSON view of replaying operations 1..%d is %s", ver, clip(got, 500), ver, clip(want, 500))
+		}
+		return "", ""
+	}
+	return "user-doc-missing", fmt.Sprintf("no document is kept under key %q in the user collection %s", key, col)
 }
